@@ -244,6 +244,14 @@ func newL2WorldOpt(r *core.Run, p *l2Profile, fixedBridge uint64, bases []string
 	}
 	w.opts.MinGasPrices = p.NodeMinGas
 	w.genesis = &node.L2Genesis{Time: w.now, Balances: bal, Opchild: gen, CurrencyPairs: pairs}
+	if r.Chance(1, 4) {
+		// the bank genesis already carries metadata for (some of) the bridged denoms, without any opchild denom pair
+		for _, b := range w.bases {
+			if r.Chance(2, 3) {
+				w.genesis.ExtraMetadata = append(w.genesis.ExtraMetadata, w.l2denom(b))
+			}
+		}
+	}
 	w.n = node.NewL2(w.db, w.genesis, w.opts, nil)
 	w.enc = w.n.Enc
 	w.eng = engine.New([]string{"ed25519"})
